@@ -249,6 +249,13 @@ func C06(rep *ev.Reporter, tier string) {
 	RunFamily(rep, gen, 3000, bud, judge)
 	rep.Coverage["zero_listener_runs_compared"] = plainChecked
 	c06Nested(rep, sets, maxMax)
+	{
+		nr, nt := c06CompleteOutside(rep)
+		rep.Coverage["complete_from_outside_runs"] = nr
+		if v, ok := rep.Coverage["distinct_nontrivial"].(int64); ok {
+			rep.Coverage["distinct_nontrivial"] = v + nt
+		}
+	}
 	c06Interrupted(rep, sets)
 	rep.Coverage["rule"] = "rule sets {never satisfied, fires n=1..3 times, loops forever (1 and 2 rules), Complete at firing n, action error at firing n, retract chain, mixed, failing condition, getter changed through a method and announced with Changed (also as second run on one data context)} x MaxCycle 0..5 (thorough 0..8) x 1..4 listeners (+ a listener-free differential run) x every rule order per cycle. Oracle: the engine model followed along the observed trace decides, per cycle, whether the run must continue, fire, end with nil, with the limit error or with an action error; per-listener protocol automaton (consecutive numbering, each active rule exactly once, <=1 execution of a same-cycle candidate). Termination horizon is a callback count, not a clock. Non-trivial: a run that reaches the budget boundary with candidates left. Third family (interrupted runs): every rule set under every static order with the context ending (Canceled / DeadlineExceeded) at every poll index: reported statuses stay truthful unless the run ends with the context's error, nil only at real quiescence, an announced execution runs its actions. Second family (overlapping runs on ONE engine value): for every outer program with a probe in an action or a condition x inner program x MaxCycle x probe invocation index j, the j-th probe invocation of the outer run starts a complete inner run (own instance, facts and data context) on the same (warm: it served a complete run before) *GruleEngine, under the first and last static rule order of either run; both traces are judged by the same engine model and compared with the scenario run on two separate engine values."
 }
